@@ -192,13 +192,13 @@ func (t *Trans) mergeReturns(sub *Frame) ([]string, State, string) {
 
 // havocCall: callee without contract and not inlinable: results unconstrained, everything it may write havocked.
 func (t *Trans) havocCall(fr *Frame, name string, sig *types.Signature, args []string, f *ssa.Function) []string {
-	if f != nil && f.Blocks != nil {
+	if f != nil && f.Blocks != nil && t.P.isClover(f) {
 		t.note("call to %s (no contract, not inlinable) abstracted: results and written state havocked", name)
 		w := t.P.funcWrites(t.env, f)
 		t.havocComps(fr, w, nil, nil)
 	} else {
-		t.note("call to external %s without contract: all state havocked", name)
-		t.havocAll(fr)
+		t.note("call to external %s without contract: heap havocked, result unconstrained", name)
+		t.havocState(fr, false)
 	}
 	return t.freshResults(fr, sig, name)
 }
@@ -214,10 +214,18 @@ func (t *Trans) freshResults(fr *Frame, sig *types.Signature, hint string) []str
 	return res
 }
 
-func (t *Trans) havocAll(fr *Frame) {
+func (t *Trans) havocAll(fr *Frame) { t.havocState(fr, true) }
+
+// havocState: every heap component gets a fresh value; ghost (store protocol) components too when
+// ghosts is set. Library code other than the store adapters never touches the store (assumption A16),
+// so unknown external calls leave the ghost state alone.
+func (t *Trans) havocState(fr *Frame, ghosts bool) {
 	pre := fr.st
 	for _, c := range append([]string{}, t.env.compOrd...) {
 		if strings.HasPrefix(c, "IT_") {
+			continue
+		}
+		if _, isGhost := t.P.ghostComps[c]; isGhost {
 			continue
 		}
 		n := t.freshConst(t.env.comps[c], c+"@hv")
@@ -225,6 +233,9 @@ func (t *Trans) havocAll(fr *Frame) {
 		if c == "alloc" {
 			t.assume("true", fmt.Sprintf("(>= %s %s)", n, pre.get("alloc")))
 		}
+	}
+	if !ghosts {
+		return
 	}
 	for _, g := range t.P.ghostOrd {
 		t.env.Comp(g, t.P.ghostComps[g])
@@ -236,9 +247,17 @@ func (t *Trans) havocAll(fr *Frame) {
 // outside the contract's modifies clause unchanged.
 func (t *Trans) havocComps(fr *Frame, w map[string]string, c *Contract, sc *SpecCtx) {
 	if _, all := w["*"]; all {
-		t.note("%s: a callee may write anything: all state havocked", fr.path)
-		t.havocAll(fr)
-		return
+		t.note("%s: a callee may write any heap location: heap havocked", fr.path)
+		_, gh := w["ghost*"]
+		t.havocState(fr, gh)
+		delete(w, "*")
+	}
+	if _, gh := w["ghost*"]; gh {
+		delete(w, "ghost*")
+		for _, g := range t.P.ghostOrd {
+			t.env.Comp(g, t.P.ghostComps[g])
+			fr.st = fr.st.set(g, t.freshConst(t.P.ghostComps[g], g+"@hv"))
+		}
 	}
 	pre := fr.st
 	ws := make([]string, 0, len(w))
@@ -355,11 +374,23 @@ func (t *Trans) applyContract(fr *Frame, c *Contract, cname string, sig *types.S
 			t.havocAll(fr)
 			continue
 		}
+		if name == "ghost*" || name == "heap*" {
+			if name == "heap*" {
+				w["*"] = ""
+			} else {
+				w["ghost*"] = ""
+			}
+			continue
+		}
 		if srt, ok := t.P.ghostComps[name]; ok {
 			w[name] = srt
 		} else if srt, ok := t.env.comps[name]; ok {
 			w[name] = srt
-		} else if name != "" && name != "@" {
+		} else if name == "@" {
+			for k, v := range t.P.declaredWrites(t.env, &Contract{Modifies: []*Sx{it}, Extra: map[string][]*Sx{}}) {
+				w[k] = v
+			}
+		} else if name != "" {
 			t.errorf("%s: modifies names unknown component %s", c.Key, name)
 		}
 	}
